@@ -71,3 +71,10 @@ Proof.
   intros a maps. simpl. induction maps as [|L maps IH]; simpl; auto.
   rewrite IH, andb_true_r. destruct (eval a L) eqn:E; simpl; auto. apply restrictions_sound_b. auto.
 Qed.
+
+From Verif.C07 Require Import SortLemmas MeetsProofs.
+
+Theorem model_meets_spec_perm :
+  forall (ord : nat -> list N -> list N), (forall t l, Permutation (ord t l) l) ->
+  forall ops, ok_trace ops (run_obs ord empty_st ops) = true.
+Proof. intros ord Hp ops. apply model_meets_spec. apply perm_same. auto. Qed.
